@@ -21,7 +21,7 @@ elab "#audit " ns:ident : command => do
   -- auxiliary constructions the compiler derives for inductive predicates are not statements of ours
   let aux : List String := ["brecOn", "below", "recOn", "casesOn", "rec", "noConfusion", "binductionOn", "ibelow", "ndrec", "ndrecOn"]
   names := names.filter fun n => match n with
-    | .str _ s => !(aux.contains s)
+    | .str _ s => !(aux.contains s) && !(s.startsWith "eq_") && !(s.startsWith "match_") && !(s.startsWith "proof_")
     | _ => true
   let sorted := names.qsort (fun a b => a.toString < b.toString)
   for n in sorted do
